@@ -72,6 +72,9 @@ type caseIn struct {
 	bind     bool          // the query is made with Session.Bind (values from a binding callback) instead of Session.Query
 	retries  int           // > 0: a retry policy that retries a failed fetch on the same host up to this many times per page
 	eff      []reply       // script as the paging logic sees it: a failed fetch that is retried = "the same request again"
+	rtype    int           // 1 RetryNextHost, 2 Ignore, 3 Rethrow: a retry policy that is consulted (Attempt = true) and answers this type.
+	                       // None of them re-sends a page request here (RetryNextHost: the one host has been used; Ignore / Rethrow return
+	                       // the failed iterator), so the failed fetch must surface exactly as without a policy: retries stays 0.
 	spec     int           // > 0: Idempotent(true) + SimpleSpeculativeExecution{NumAttempts: spec, TimeoutDelay: long}: the executor's
 	                       // speculative path runs (the extra attempts never fire); rows and requests must be those of the plain run
 	mutate   int           // > 0: what the caller does to the *Query handle right after Iter() returned (mutateHandle)
@@ -326,6 +329,8 @@ func buildQuery(s *gocql.Session, in *caseIn) *gocql.Query {
 	}
 	if in.retries > 0 {
 		q = q.RetryPolicy(sameHostRetry{in.retries}).Idempotent(true)
+	} else if in.rtype > 0 {
+		q = q.RetryPolicy(typedRetry{2, []gocql.RetryType{gocql.Retry, gocql.RetryNextHost, gocql.Ignore, gocql.Rethrow}[in.rtype]}).Idempotent(true)
 	}
 	if in.spec > 0 {
 		q = q.Idempotent(true).SetSpeculativeExecutionPolicy(&gocql.SimpleSpeculativeExecution{NumAttempts: in.spec, TimeoutDelay: 30 * time.Second})
@@ -353,6 +358,15 @@ type sameHostRetry struct{ n int }
 
 func (p sameHostRetry) Attempt(q gocql.RetryableQuery) bool { return q.Attempts() <= p.n }
 func (p sameHostRetry) GetRetryType(error) gocql.RetryType  { return gocql.Retry }
+
+// typedRetry is consulted for up to n failures per query object and always gives the same answer
+type typedRetry struct {
+	n int
+	t gocql.RetryType
+}
+
+func (p typedRetry) Attempt(q gocql.RetryableQuery) bool { return q.Attempts() <= p.n }
+func (p typedRetry) GetRetryType(error) gocql.RetryType  { return p.t }
 
 // effective rewrites the script the way the executor's retry loop presents it to the paging logic: an error
 // answer that the policy retries is followed by the very same request, exactly like UNPREPARED
@@ -809,6 +823,9 @@ func (g *gen) add(in *caseIn) *caseIn {
 	if in.sess == 2 && !in.ownSess { // protocol v2 has no default-timestamp flag (frame.go writeQueryParams: proto > 2)
 		in.tsflag, in.ts = false, 0
 	}
+	if in.retries > 0 {
+		in.rtype = 0
+	}
 	if in.mutate == 10 {
 		in.spec = 0 // Release while the executor's goroutine may still hold the query is another story
 	}
@@ -859,6 +876,14 @@ func ids(page, n int) []int32 {
 	return xs
 }
 
+func make2(n int) []int {
+	xs := make([]int, n)
+	for i := range xs {
+		xs[i] = 2
+	}
+	return xs
+}
+
 func lastPage(n int) reply { return reply{kind: rPage, rows: make([]int32, n)} }
 
 var prefetches = [][2]int64{{0, 1}, {1, 4}, {1, 2}, {1, 1}, {3, 4}, {1, 8}, {5, 8}, {2, 1}, {-1, 1}, {3, 2}, {-1, 4}}
@@ -876,6 +901,9 @@ func (g *gen) randomCfg(in *caseIn) {
 	in.bind = r.Chance(40)
 	if r.Chance(25) {
 		in.spec = 1 + r.Intn(2)
+	}
+	if r.Chance(15) {
+		in.rtype = 1 + r.Intn(3)
 	}
 	if r.Chance(20) {
 		in.retries = 1 + r.Intn(3)
@@ -1217,6 +1245,27 @@ func (g *gen) generate(scale int, search bool) {
 		bp.stmt = a.stmt // one handle, one statement; the bound values differ
 		a.partner = bp
 	}
+	// (11) systematic: a retry policy answering Retry / RetryNextHost / Ignore / Rethrow x the fetch of page 1, 2 or the last
+	// page fails x 4 consumers x prefetch 0 and 1/2. Only Retry re-sends; with the others the failure is the iteration's error.
+	for rt := 0; rt < 4; rt++ {
+		for kf := 0; kf < 3; kf++ {
+			for cons := 0; cons < 4; cons++ {
+				for pfi := 0; pfi < 2; pfi++ {
+					in := &caseIn{kind: "retry-type", consumer: cons, prepared: (rt+kf+cons)%3 != 0, bind: (rt+cons)%2 == 0, psize: 3, cons: gocql.Quorum,
+						noskip: (kf+cons)%2 == 0, pfNum: int64(pfi), pfDen: 2, stop: -1, tsflag: true, sess: (rt + kf + cons + pfi) % g.nsess, rtype: rt}
+					if rt == 0 {
+						in.retries = 1
+					}
+					code := []int{0x1001, 0x1000, 0x1200, 0x0000}[(rt+kf+cons)%4]
+					failAt := []int{0, 1, 3}[kf] // number of pages delivered before the failing fetch
+					in.script = g.pages(make2(failAt), reply{kind: rErr, code: code})
+					// what a re-sent request gets (Retry: the iteration goes on; the others must never ask)
+					in.script = append(in.script, reply{kind: rPage, rows: ids(failAt, 2), more: true, state: []byte{0x77}}, reply{kind: rPage, rows: ids(failAt+1, 1)})
+					g.add(in)
+				}
+			}
+		}
+	}
 	// (8) a request that is never answered, with a retry policy: every retry times out as well
 	for i := 0; i < 3; i++ {
 		in := &caseIn{kind: "retry-noreply", consumer: i, prepared: i != 1, bind: i == 2, psize: 5, cons: gocql.One, pfNum: 1, pfDen: 4, stop: -1, retries: 1, sess: i % g.nsess}
@@ -1442,7 +1491,7 @@ func main() {
 		hist[fmt.Sprintf("consumer%d", in.consumer)]++
 		hist[fmt.Sprintf("requests=%d", min(len(out.reqs), 10))]++
 		input := map[string]interface{}{"case": in.id, "consumer": in.consumer, "stmt": in.stmt, "manual": in.manual, "prefetch": fmt.Sprintf("%d/%d", in.pfNum, in.pfDen),
-			"stop": in.stop, "spec": in.spec, "bind": in.bind, "retries": in.retries, "script": describe(in.script), "rows_seen": len(out.rows), "err": out.errText, "requests": len(out.reqs)}
+			"stop": in.stop, "rtype": in.rtype, "spec": in.spec, "bind": in.bind, "retries": in.retries, "script": describe(in.script), "rows_seen": len(out.rows), "err": out.errText, "requests": len(out.reqs)}
 		viol := func(kind, finding, detail string) { o.Violate(idx, kind, finding, detail, input) }
 		if out.panicked != "" {
 			viol("panic", "", out.panicked)
